@@ -26,7 +26,7 @@
     * `HInv2 s fl` — the inductive invariant: `Refine.HInv` (⊇ `CInv` ⊇ `SInv`, `IdxInv`) and `FInv`:
       `CacheInv` (I11), `RInv`, `HeapOK` (a filter object with `cache = some id` has a cache entry
       `id` with its filter and relations; registered objects have distinct IDs; typed objects
-      name registered components of their mask), `CIdx` (the component index lists, per
+      name registered components of their mask), `CIdxH` (the component index lists, per
       component, the archetypes having it), the lock-bit pool invariant with no outstanding bit,
       `CachePoolOK` (registered IDs are below the next fresh one).
     * `Selected w f rels t` — table `t` is selected by filter `f` (Ark/Proofs/CacheInv.lean);
